@@ -79,6 +79,77 @@ async def replay(script, n):
     return dict(n=n, ev=ev, script=script)
 
 
+async def replay_concurrent(pre, batch, order, n):
+    """pre: [(m, write)] mapped one after the other; batch: [(m, write)] whose map_fmmu context managers are ENTERED
+    CONCURRENTLY (one task each; the bus stub suspends at every register access, as a real round trip does); then
+    everything is unmapped in the given order.  Events are recorded when an entry completes; while other entries of
+    the batch are still in flight the observed table may already hold their reservations (event marked loose)."""
+    from ebpfcat.ethercat import Terminal
+    ec = StubEC()
+    t = Terminal(ec)
+    t.position = 7
+    t.fmmu_used = [None] * n
+    t.pdo_out_off, t.pdo_out_sz, t.pdo_in_off, t.pdo_in_sz = 0x1100, 4, 0x1180, 6
+    cms, ev = {}, []
+
+    def tbl():
+        return [x or 0 for x in t.fmmu_used]
+
+    def reg_of(writes):
+        w = [x for x in writes if x[0] == "FPWR" and 0x600 <= x[1] < 0x700]
+        if len(w) == 1 and (w[0][1] - 0x600) % 0x10 == 0 and len(w[0][2]) == 9:
+            a = w[0][2]
+            return dict(idx=(w[0][1] - 0x600) // 0x10, logical=a[1], dir=a[7], act=a[8], size=a[2], off=a[5])
+        return dict(idx=-1, logical=0, dir=0, act=0, size=0, off=0, raw=repr(w))
+
+    async def enter(m, write, pending):
+        cm = t.map_fmmu(m, write)
+        mine = []
+        orig = ec.roundtrip
+
+        try:
+            slot = await cm.__aenter__()
+        except Exception as e:
+            pending.discard(m)
+            ev.append(dict(op="map", m=m, write=write, res="fail", exc=type(e).__name__, tbl=tbl(), loose=bool(pending)))
+            return
+        cms[m] = cm
+        pending.discard(m)
+        # the register write of THIS mapping: the one whose logical address is m
+        w = [x for x in ec.log if x[0] == "FPWR" and 0x600 <= x[1] < 0x700 and len(x[2]) == 9 and x[2][1] == m]
+        ev.append(dict(op="map", m=m, write=write, res="ok", slot=slot, tbl=tbl(), reg=reg_of(w[-1:]),
+                       loose=bool(pending)))
+
+    for m, write in pre:
+        await enter(m, write, set())
+    pending = {m for m, _ in batch}
+    await asyncio.gather(*[enter(m, w, pending) for m, w in batch])
+    for m in order:
+        if m in cms:
+            cm = cms.pop(m)
+            mark = len(ec.log)
+            await cm.__aexit__(None, None, None)
+            w = [x for x in ec.log[mark:] if x[0] == "FPWR" and 0x600 <= x[1] < 0x700]
+            deact = -1
+            if len(w) == 1 and (w[0][1] - 0x60c) % 0x10 == 0 and w[0][2][-1] == 0:
+                deact = (w[0][1] - 0x60c) // 0x10
+            ev.append(dict(op="unmap", m=m, deact=deact, tbl=tbl()))
+    return dict(n=n, ev=ev, script=dict(pre=pre, batch=batch, order=order, concurrent=True))
+
+
+def concurrent_scripts():
+    import itertools
+    out = []
+    for pre in ([], [(3, True)], [(3, False)]):
+        for k in (2, 3):
+            for flags in itertools.product((True, False), repeat=k):
+                batch = [(i + 1, f) for i, f in enumerate(flags)] if k == 2 else [(1, flags[0]), (2, flags[1]), (4, flags[2])]
+                ms = [m for m, _ in pre + batch]
+                for order in (ms, ms[::-1]):
+                    out.append((pre, batch, order))
+    return out
+
+
 def run(ctx):
     logicals = [1, 2, 3]
     maxlen = 4 if ctx.quick else 5
@@ -116,6 +187,14 @@ CHECK_DEADLOCK FALSE
     for s in scripts:
         for n in (1, 2, 3, 4):
             traces.append(loop.run_until_complete(replay(s, n)))
+    # mappings of one terminal set up concurrently (two sync groups sharing a terminal started together): added
+    # after a seeded change - the FMMU marked used only after the awaited register write - passed the sequential scripts
+    nconc = 0
+    for pre, batch, order in concurrent_scripts():
+        for n in (1, 2, 3, 4):
+            traces.append(loop.run_until_complete(replay_concurrent(pre, batch, order, n)))
+            nconc += 1
+    ctx.extra["concurrent_traces"] = nconc
     loop.close()
     results = T.validate_traces(ctx, wd, "FmmuTrace", "FmmuTrace.cfg",
                                 [dict(n=t["n"], ev=t["ev"]) for t in traces], chunk=4000)
